@@ -272,8 +272,8 @@ class ASL_API Var
 	Var(int x): _type(INT), _i(x){}
 	Var(float x): _type(FLOAT) {_d=x;}
 	Var(unsigned x);
-	Var(long x) : _type(INT), _i((int)x){}
-	Var(unsigned long x) : _type(INT), _i((int)x){}
+	Var(long x) { if (x >= -2147483647L - 1 && x <= 2147483647L) { _type = INT; _i = (int)x; } else { _type = NUMBER; _d = (double)x; } }
+	Var(unsigned long x) { if (x <= 2147483647UL) { _type = INT; _i = (int)x; } else { _type = NUMBER; _d = (double)x; } }
 	Var(Long x);
 	Var(ULong x);
 	Var(bool x);
@@ -347,8 +347,8 @@ class ASL_API Var
 	void operator=(ULong x) { (*this) = (Long)x; }
 	void operator=(float x);
 	void operator=(unsigned x);
-	void operator=(long x) { *this = (int)x; }
-	void operator=(unsigned long x) { *this = (unsigned int)x; }
+	void operator=(long x) { if (x >= -2147483647L - 1 && x <= 2147483647L) *this = (int)x; else *this = (double)x; }
+	void operator=(unsigned long x) { if (x <= 4294967295UL) *this = (unsigned int)x; else *this = (double)x; }
 	void operator=(bool x);
 	void operator=(const char* x);
 	void operator=(const String& x);
